@@ -3,6 +3,7 @@ package csproto
 import (
 	"math/bits"
 
+	protov1 "github.com/golang/protobuf/proto" //nolint: staticcheck // we're using this deprecated package intentionally
 	"google.golang.org/protobuf/proto"
 )
 
@@ -33,6 +34,11 @@ func Size(msg interface{}) int {
 
 	if pm, ok := msg.(proto.Message); ok {
 		return proto.Size(pm)
+	}
+
+	// Google V1 messages generated without the XXX_ methods
+	if pm, ok := msg.(protov1.Message); ok && MsgType(msg) == MessageTypeGoogleV1 {
+		return protov1.Size(pm)
 	}
 
 	return 0
